@@ -32,7 +32,12 @@ struct cancellation_node {
 
 static void s_destroy_callback(void *arg) {
     struct aws_thread_scheduler *scheduler = arg;
+    /* The flag is part of the scheduler thread's wake-up predicate, which is evaluated under the mutex: change it under
+     * the mutex, or the notification can fall between the thread's last look at the flag and its wait and be lost
+     * (the thread would then sleep until its next timed wake-up: 30 seconds, or the time of the next pending task). */
+    AWS_FATAL_ASSERT(!aws_mutex_lock(&scheduler->thread_data.mutex) && "mutex lock failed!");
     aws_atomic_store_int(&scheduler->should_exit, 1U);
+    AWS_FATAL_ASSERT(!aws_mutex_unlock(&scheduler->thread_data.mutex) && "mutex unlock failed!");
     aws_condition_variable_notify_all(&scheduler->thread_data.c_var);
     aws_thread_join(&scheduler->thread);
 
